@@ -369,6 +369,9 @@ int64_t wr(const char* p, int64_t n)
     RtGuard g;
     OpRec* o = cur();
     if (!o) return n;
+    // switch point BEFORE the bytes are taken: a caller that formatted into shared scratch memory and only now hands
+    // it over can be overtaken by another task between its formatting and this copy (visible without TSan)
+    maybe_switch(K_WR);
     ++o->wr_events;
     if (o->first_wr_seq < 0 && n > 0)
     {
